@@ -751,6 +751,16 @@ C06TokViol(c, q) ==
                 IF KeyOf(cl, rid) \in DOMAIN cl.lastAcc /\ ~cl.lastAcc[KeyOf(cl, rid)].rechk THEN "KF-R" ELSE "")
               : rid \in {x \in DOMAIN snap : snap[x].direct > 0 /\ Get(cl.lastAcc, KeyOf(cl, x), [l |-> 0]).l < cl.lastTokT} }
 
+(* the same for the triggers routed through the cache (reaccess events, access patterns of system resets): judged at *)
+(* the MQ boundary only, so it holds whether or not the gateway's reaccess notes are present                          *)
+C06TrigViol(c, q) ==
+    LET cl == o.conns[c]
+        snap == Get(q.subs, c, <<>>)
+        LastT(rid) == LET ts == Get(o.ctrig, NameOf(cl, rid), <<>>) IN IF ts = <<>> THEN 0 ELSE ts[Len(ts)]
+    IN { V("C06", "direct subscription " \o rid \o " of " \o c \o " was not re-checked by an access request sent after the last reaccess event / access reset for it",
+            IF KeyOf(cl, rid) \in DOMAIN cl.lastAcc /\ ~cl.lastAcc[KeyOf(cl, rid)].rechk THEN "KF-R" ELSE "")
+         : rid \in {x \in DOMAIN snap : snap[x].direct > 0 /\ LastT(x) > 0 /\ Get(cl.lastAcc, KeyOf(cl, x), [l |-> 0]).l < LastT(x)} }
+
 C19QViol ==
     { V("C19", "throttle " \o t \o " still has " \o ToString(o.thr[t].qlen) \o " governed requests waiting and " \o ToString(o.thr[t].running) \o " slots taken at quiescence", "")
       : t \in {x \in DOMAIN o.thr : o.thr[x].qlen > 0 \/ o.thr[x].running > 0} }
@@ -777,7 +787,7 @@ H_quiescent(r) ==
     LET live == {c \in DOMAIN o.conns : o.conns[c].alive /\ c \in SeqToSet(r.conns)}
         o1 == [o EXCEPT !.conns = [c \in DOMAIN o.conns |-> [o.conns[c] EXCEPT !.rn = (IF c \in DOMAIN r.rn THEN r.rn[c] ELSE <<>>) @@ @]]]
     IN Res([o1 EXCEPT !.resetObl = {}, !.qev = <<>>],
-           UNION {C01Viol(c, r) \cup C07Viol(c) \cup C08Viol(c, r) \cup C03EndViol(c, r) \cup C06EndViol(c, r) \cup C06TokViol(c, r) : c \in live}
+           UNION {C01Viol(c, r) \cup C07Viol(c) \cup C08Viol(c, r) \cup C03EndViol(c, r) \cup C06EndViol(c, r) \cup C06TokViol(c, r) \cup C06TrigViol(c, r) : c \in live}
            \cup C09QViol(r) \cup C11Viol(r) \cup C19QViol
            \cup (IF o.hadStop THEN {} ELSE UNION {{V(e.p, "subscription " \o Short(o.sq[sp].rid) \o " of " \o o.sq[sp].c \o ": " \o e.m, "") : e \in SQTQuiescent(o.sq[sp].x)} : sp \in DOMAIN o.sq})
            \cup (IF o.hadStop THEN {} ELSE UNION {{V(e.p, "work queue of " \o Short(o.rq[ep].n) \o ": " \o e.m, "") : e \in RQQuiescent(o.rq[ep].x)} : ep \in DOMAIN o.rq})
